@@ -11,6 +11,7 @@ import (
 	"github.com/taurusgroup/multi-party-sig/pkg/protocol"
 	"github.com/taurusgroup/multi-party-sig/pkg/taproot"
 	"github.com/taurusgroup/multi-party-sig/protocols/cmp"
+	"github.com/taurusgroup/multi-party-sig/protocols/cmp/config"
 	cmppresign "github.com/taurusgroup/multi-party-sig/protocols/cmp/presign"
 	"github.com/taurusgroup/multi-party-sig/protocols/doerner"
 	"github.com/taurusgroup/multi-party-sig/protocols/frost"
@@ -382,4 +383,58 @@ func SigCheck(p Proto, res interface{}, Y ref.Pt, msg []byte) (enc string, ok bo
 		return enc, ref.SchnorrVerify(Y, R, zz, msg), "Schnorr verification z*G == R + c*Y"
 	}
 	return fmt.Sprintf("%T", res), false, fmt.Sprintf("unexpected result type %T", res)
+}
+
+// FreezeShare returns a deep copy of a config of the same family carrying the given secret share
+// (value snapshot that later in-place mutation by the library cannot affect).
+func FreezeShare(p Proto, cfg interface{}, share *big.Int) interface{} {
+	s := LibScalar(share)
+	cp := func(pt curve.Point) curve.Point { return LibPoint(Pt(pt)) }
+	switch c := cfg.(type) {
+	case *frost.Config:
+		vs := map[party.ID]curve.Point{}
+		for k, v := range c.VerificationShares.Points {
+			vs[k] = cp(v)
+		}
+		return &frost.Config{ID: c.ID, Threshold: c.Threshold, PrivateShare: s, PublicKey: cp(c.PublicKey), ChainKey: append([]byte{}, c.ChainKey...), VerificationShares: party.NewPointMap(vs)}
+	case *frost.TaprootConfig:
+		cc := c.Clone()
+		cc.PrivateShare = s.(*curve.Secp256k1Scalar)
+		for k, v := range c.VerificationShares {
+			cc.VerificationShares[k] = cp(v).(*curve.Secp256k1Point)
+		}
+		return cc
+	case *cmp.Config:
+		cc := *c
+		cc.ECDSA = s
+		pub := map[party.ID]*config.Public{}
+		for k, v := range c.Public {
+			vv := *v
+			vv.ECDSA = cp(v.ECDSA)
+			pub[k] = &vv
+		}
+		cc.Public = pub
+		return &cc
+	case *doerner.ConfigReceiver:
+		cc := *c
+		cc.SecretShare = s
+		cc.Public = cp(c.Public)
+		return &cc
+	case *doerner.ConfigSender:
+		cc := *c
+		cc.SecretShare = s
+		cc.Public = cp(c.Public)
+		return &cc
+	}
+	Fatalf("FreezeShare: unexpected %T", cfg)
+	return nil
+}
+
+// Clone deep-copies the material (every session instance gets its own config objects).
+func (m *Material) Clone() *Material {
+	out := &Material{Proto: m.Proto, IDs: m.IDs, T: m.T, Cfg: map[party.ID]interface{}{}}
+	for id, cfg := range m.Cfg {
+		out.Cfg[id] = FreezeShare(m.Proto, cfg, m.Share(id))
+	}
+	return out
 }
